@@ -147,3 +147,60 @@ func fieldOnlyFromParam(r *core.Run, rule, typeName, field, module, param string
 	}
 	return n
 }
+
+// failsOnlyOnErrors: in the given functions (the distribution helpers of the mint path) a branch that leads only to
+// failing returns is decided by the error (or nil-ness) of something called — a bank transfer, an address parse —
+// never by the amount or another computed value: a share that happens to be zero must not abort the distribution of
+// the shares that follow it.
+func failsOnlyOnErrors(r *core.Run, rule string, funcs []*ssa.Function) int {
+	p := r.Prog
+	n := 0
+	for _, fn := range funcs {
+		if fn.Blocks == nil || errResultIdx(fn) < 0 {
+			continue
+		}
+		failing := map[*ssa.Return]bool{}
+		for _, ri := range p.Returns(fn) {
+			if ri.Class == core.RetFail {
+				failing[ri.Ret] = true
+			}
+		}
+		onlyFails := func(from *ssa.BasicBlock) bool {
+			any := false
+			for _, b := range fn.Blocks {
+				ret, ok := b.Instrs[len(b.Instrs)-1].(*ssa.Return)
+				if !ok {
+					continue
+				}
+				if b == from || blockReaches(from, b) {
+					any = true
+					if !failing[ret] {
+						return false
+					}
+				}
+			}
+			return any
+		}
+		for _, b := range fn.Blocks {
+			ifi, ok := b.Instrs[len(b.Instrs)-1].(*ssa.If)
+			if !ok || onlyFails(b) {
+				continue
+			}
+			refuses := false
+			for _, sc := range b.Succs {
+				if onlyFails(sc) {
+					refuses = true
+				}
+			}
+			if !refuses {
+				continue
+			}
+			n++
+			ca := p.NormCond(ifi)
+			okKind := ca.Kind == "errnil" || ca.Kind == "isnil"
+			r.Check(okKind, rule, core.FnName(fn)+":fails-only-on-errors:"+p.Describe(ca, true), p.InstrPos(ifi), "the failing branch is decided by the error of a call",
+				"a distribution step fails on a computed condition ("+p.Describe(ca, true)+") rather than on the error of a transfer or an address parse: when it does (a share of zero, for instance) the block's distribution stops there and the shares that follow stay in the mint module account")
+		}
+	}
+	return n
+}
